@@ -236,6 +236,9 @@ def _adversarial(ctx):
     for v in ("bass", "rhythm"):
         check_song(ctx, ["Player2 = " + v, "Resolution = 192"], "Player2")
         check_song(ctx, ["\tPlayer2 = " + v, "  Resolution = 192"], "Player2 padded")
+    # very long values (block / buffer thresholds)
+    for n_ in (255, 256, 4095, 4096, 65535, 65536, 70001):
+        check_song(ctx, ["Resolution = 192", 'Name = "%s"' % ("x" * (n_ - 1) + "y"), 'Charter = "%s"' % ("ab " * (n_ // 3))], "values of about %d characters" % n_)
     # the first line of a field wins, whatever follows
     for f in ("Name", "Offset", "Charter"):
         check_song(ctx, ["Resolution = 192", canon(f, 1), canon(f, 2)], "field %s given twice" % f)
